@@ -88,14 +88,18 @@ def w1(prog, ctx):
         if f is None:
             raise AnalysisError("CountingStrategy.%s not found" % flag)
         ret = [s for s in f.body if isinstance(s, ast.Return)]
-        if not (ret and isinstance(ret[0].value, ast.Compare) and isinstance(ret[0].value.ops[0], ast.In)):
-            raise AnalysisError("CountingStrategy.%s is not 'return self in [...]'" % flag)
-        lst = ret[0].value.comparators[0]
-        got = {dotted(e).split(".")[-1] for e in lst.elts}
+        if len(ret) != 1 or len([s for s in f.body if not isinstance(s, ast.Expr)]) != 1:
+            raise AnalysisError("CountingStrategy.%s is not a single return of a membership expression" % flag)
+        from ..engine import staticeval
+        env = {"CountingStrategy.%s" % m: m for m in members}
         for m in sorted(DOC_FLAGS):
-            if (m in got) != DOC_FLAGS[m][flag]:
-                ctx.fail("W1", ret[0], "CountingStrategy." + flag, "%s: %s" % (m, m in got),
-                         "strategy %s has %s=%s in the code but docs/cmd.md prescribes %s" % (m, flag, m in got, DOC_FLAGS[m][flag]))
+            try:
+                val = bool(staticeval.evaluate(ret[0].value, dict(env, self=m)))
+            except (staticeval.NoEval, TypeError, KeyError) as e:
+                raise AnalysisError("CountingStrategy.%s cannot be evaluated statically for member %s (%s)" % (flag, m, e))
+            if val != DOC_FLAGS[m][flag]:
+                ctx.fail("W1", ret[0], "CountingStrategy." + flag, "%s: %s" % (m, val),
+                         "strategy %s has %s=%s in the code but docs/cmd.md prescribes %s" % (m, flag, val, DOC_FLAGS[m][flag]))
             else:
                 ctx.ok("W1", "%s:%d" % (LRC, ret[0].lineno), "%s.%s() == %s as documented" % (m, flag, DOC_FLAGS[m][flag]))
     # CountingStrategyFlags wires each flag to its own method
@@ -371,7 +375,41 @@ def w5(prog, ctx):
         ctx.fail("W4", inc, inc._qualname, "inc", "IncrementalDict.inc no longer stores type(value) then adds")
 
 
+def w5(prog, ctx):
+    """Each counting table is built with the strategy option of its own feature level, and writes to a file of that level."""
+    n = 0
+    level = {"create_gene_counter": "gene", "create_transcript_counter": "transcript"}
+    for m, q, f in prog.all_functions():
+        for c in walk_no_nested(f):
+            cn = (call_name(c) or "").split(".")[-1]
+            if not (isinstance(c, ast.Call) and cn in level):
+                continue
+            n += 1
+            lv = level[cn]
+            strat = c.args[1] if len(c.args) > 1 else next((k.value for k in c.keywords if k.arg == "strategy"), None)
+            out = c.args[0] if c.args else next((k.value for k in c.keywords if k.arg == "output_file_name"), None)
+            ts = src(strat) if strat is not None else "?"
+            if not ts.endswith("args.%s_quantification" % lv):
+                ctx.fail("W5", c, q, "%s(..., %s)" % (cn, ts), "the %s-level table %s is weighted with %s instead of the --%s_quantification "
+                         "strategy: reads are counted with the weights documented for the other option" % (lv, src(out)[:50], ts, lv))
+            elif out is not None and ("_%s_" % lv) not in src(out) and not src(out).split(".")[-1].startswith("out_%s" % lv):
+                ctx.fail("W5", c, q, "%s(%s, ...)" % (cn, src(out)), "a %s-level counter writes to %s" % (lv, src(out)))
+            else:
+                ctx.ok("W5", "%s:%d" % (m.rel, c.lineno), "%s -> %s with %s" % (cn, src(out)[:50], ts))
+    ctx.floor("W5", "counter construction sites", n, 6)
+    # the factories hand the strategy to the weight counter and pick the extractor of their level
+    for cn, lv in level.items():
+        f = prog.func(LRC, cn)
+        t = src(f)
+        if "ReadWeightCounter(strategy)" not in t or ("%sAssignmentExtractor" % lv.capitalize()) not in t:
+            ctx.fail("W5", f, cn, cn, "%s does not build ReadWeightCounter(strategy) with the %s extractor" % (cn, lv))
+
+
 def run(prog, ctx):
+    ctx.rule("W5", "every create_gene_counter / create_transcript_counter call passes args.gene_quantification / "
+                   "args.transcript_quantification respectively and an output path of the same level; the factories pass the strategy "
+                   "to ReadWeightCounter and use their own level's extractor")
+    w5(prog, ctx)
     ctx.rule("W4", "the accumulator cell type of AssignedFeatureCounter.feature_counter resolves to float (weights 1/k are fractional)")
     ctx.rule("W1", "path enumeration of ReadWeightCounter.process_* with a one-variable interval domain for the feature count: every "
                    "return is 0, 1 or 1/k; 1 only if k <= 1; 1/k only with the documented strategy flags positive on the path; the "
